@@ -237,6 +237,8 @@ class ComponentContext:
     default_slot: Optional[str]
     fills: Dict[SlotName, Slot]
     outer_context: Optional[Context]
+    # Whether the component was rendered with the `only` flag, e.g. `{% component "table" only %}`
+    only: bool
     registry: ComponentRegistry
     # When we render a component, the root component, together with all the nested Components,
     # shares this dictionary for storing callbacks that are called from within `component_post_render`.
@@ -971,6 +973,7 @@ class Component(
         type: RenderType = "document",
         render_dependencies: bool = True,
         request: Optional[HttpRequest] = None,
+        only: bool = False,
     ) -> str:
         render_id = gen_id()
 
@@ -978,7 +981,16 @@ class Component(
         with component_error_message([self.name]):
             try:
                 return self._render_impl(
-                    render_id, context, args, kwargs, slots, escape_slots_content, type, render_dependencies, request
+                    render_id,
+                    context,
+                    args,
+                    kwargs,
+                    slots,
+                    escape_slots_content,
+                    type,
+                    render_dependencies,
+                    request,
+                    only,
                 )
             except Exception as err:
                 # The entries in the render-time caches are normally removed when the component's (deferred)
@@ -997,6 +1009,7 @@ class Component(
         type: RenderType = "document",
         render_dependencies: bool = True,
         request: Optional[HttpRequest] = None,
+        only: bool = False,
     ) -> str:
         # NOTE: We must run validation before we normalize the slots, because the normalization
         #       wraps them in functions.
@@ -1080,6 +1093,7 @@ class Component(
             #   we will raise an error.
             default_slot=None,
             outer_context=snapshot_context(self.outer_context) if self.outer_context is not None else None,
+            only=only,
             registry=self.registry,
             post_render_callbacks=post_render_callbacks,
         )
@@ -1630,6 +1644,7 @@ class ComponentNode(BaseNode):
             # NOTE: When we render components inside the template via template tags,
             # do NOT render deps, because this may be decided by outer component
             render_dependencies=False,
+            only=self.flags[COMP_ONLY_FLAG],
         )
 
         return output
